@@ -1,8 +1,28 @@
 """C21 Schema changes keep metadata consistent (db19/meta/meta.go, db19/database.go admin ops, dbms/query/admin.go)"""
-# Mutation results (quick tier, VERIF_REPO=/tmp/wt-c21-mut = HEAD + the three fix: commits
-# 928ec07 / ba084e2 / ac2512a so that the only rejection is the mutant's; `go test ./db19/meta/...`
-# stays green for every mutant):
-#   see the table at the end of this comment block (filled in from the runs)
+# Mutation results (quick tier conformance part, seed 1, VERIF_REPO=/tmp/wt-c21-mut = main + the three
+# fix: commits so that the only rejection is the mutant's; every mutant compiles; `go test ./db19/meta/...`
+# stays green except where noted; all in db19/meta/meta.go):
+#   M1 renameFkey: `fk.Columns = ix.Columns` -> `_ = fk` (FkToHere in the target not renamed)
+#        VIOLATION at `alter tb rename a to z, b to a` (FkToHere columns stale)
+#   M2 renameFkey: `refIdx.Fk.Columns = ix.Columns` -> `_ = refIdx` (Fk.Columns of referencing tables not renamed)
+#        VIOLATION at `alter ta rename a to z` (also caught by the repository's TestValidateForeignKeyAfterRename)
+#   M3 AlterDrop: `updateFkeysIIndex(mu, &ts.Schema)` -> `_ = updateFkeysIIndex` (IIndex stale after an earlier index went)
+#        VIOLATION at `alter tb drop index(b)`
+#   M4 createFkeys: `target.Indexes[tsi].Fk.IIndex = j` -> `_ = tsi` (self reference IIndex forgotten)
+#        VIOLATION at `create tc (a,b,c) key(a) key(c) in tc(a)` (valid create refused by validate)
+#   M5 RenameTable: `m.createFkeys(mu, &tsNew.Schema, &tsNew.Schema)` -> `_ = tsNew` (links not re-created under the new name)
+#        VIOLATION at `rename tb to tc`
+#   M6 dropColumn: `slc.Replace1(ts.Columns, ucol, "-")` -> `slc.Without(ts.Columns, ucol)` (fields shift)
+#        VIOLATION at `alter ta drop (b) index(b)` (index scans return other values)
+#   M7 AlterRename: `ix.BestKey = replace(ix.BestKey, from, to)` -> `_ = ix.BestKey`
+#        VIOLATION at `alter ta rename a to z` (BestKey names a column that no longer exists)
+#   M8 Ensure: `m.createFkeys(mu, &ts.Schema, ac)` -> `_ = ac` (ensure adds an fk index without the FkToHere entry)
+#        VIOLATION at `ensure tb (b) index unique(c) in tb(b) index(a)` (FkToHere entry missing)
+#   M9 updateOtherFk: `ix.Fk.IIndex = iindex` -> `ix.Fk.IIndex = i` (wrong IIndex written to referencing tables)
+#        VIOLATION at `alter ta drop index(b)`
+# Hand corruption of a good trace (anti-vacuity): FkToHere.iidx + 1 -> rejected at that line; one scanned row
+# value + 1 -> rejected at that line; ok of a failed rename flipped -> rejected at that line; one successful
+# alter create dropped from the trace -> rejected at the following line.
 #
 # Defects this check found / re-found on the unchanged tree (each has a fix: commit in /tmp/wt-c21):
 #   F9   alter drop of a self-referencing index leaves a stale FkToHere (dropFkeys skips fk.Table == drop.Table)
@@ -145,7 +165,7 @@ def conformance(ctx):
     drv = ctx.go_build("schema")
     trace = os.path.join(ctx.work, "schema.ndjson")
     if ctx.thorough():
-        args = [trace, 1500, 100, "pairs"]
+        args = [trace, 600, 100, "pairs"]
     else:
         args = [trace, 40, 30]
     rc, out, summ = ctx.driver(drv, args, timeout=1500)
